@@ -212,6 +212,37 @@ impl Monitor for C02 {
             }),
         }
     }
+    fn cold_start(&self, rec: &mut Recorder) {
+        // the process's first v2 parses, from twelve threads at the same instant: every result is
+        // judged against the table oracle like any other
+        let inputs: Vec<Vec<u8>> = (0..24u64)
+            .map(|i| {
+                let (vc, fp) = valid_ctl(i);
+                let mut rng = spec::rng::Rng::new(i ^ 0xC01D);
+                let mut b = Vec::new();
+                spec::v2::valid_header_budget(&mut rng, &mut b, vc, fp, Some(30));
+                if i % 5 == 4 {
+                    b[13] = 0x40 | (i as u8 & 0x0F); // invalid family nibble: must be refused
+                }
+                b
+            })
+            .collect();
+        let outs = spec::engine::race_start(12, |t| (0..24).map(|k| v2_parse(&inputs[(k + 2 * t) % 24])).collect::<Vec<O2>>());
+        for (t, list) in outs.iter().enumerate() {
+            for (k, o) in list.iter().enumerate() {
+                let x = &inputs[(k + 2 * t) % 24];
+                let later = v2_parse(x);
+                rec.events(2);
+                if *o != later {
+                    rec.violation("cold-start-race", enc_case("v2", x), "cold-start".into(), format!("cold start: thread {} of 12, as one of the first v2 parses of the process, got {} for {:?}; the same call later gives {}", t, o.class(), show(&x[..x.len().min(24)], 24), later.class()));
+                }
+            }
+        }
+        for x in &inputs {
+            judge(x, rec, hash_bytes(x));
+        }
+        rec.class("cold-start|12 threads released together", || "24 headers each".to_string());
+    }
     fn floor(&self, tier: Tier) -> Vec<&'static str> {
         if tier == Tier::Miri {
             return vec!["oracle:ok-ipv4"];
